@@ -33,7 +33,7 @@ CHAINS = [["nackgen", "nackresp", "rrecv", "rsend", "stats"], ["twcchdr", "twccs
 
 def role_step(rng, role, rep, fb="mixed"):
     if role in ("w1a", "w1b"):
-        return {"a": "wrtp", "s": 1, "w": 1000 if role == "w1a" else 30000, "id": 1, "len": rng.choice([10, 200, 1200]), "shape": 0,
+        return {"a": "wrtp", "s": 1, "w": 1040 if role == "w1a" else 30000, "id": 100 if role == "w1a" else 5000, "len": rng.choice([10, 200, 1200]), "shape": 0,
                 "fail": False, "rep": rep}
     if role == "w3":
         return {"a": "wrtp", "s": 3, "w": 5, "id": 1, "len": 40, "shape": 3, "fail": False, "rep": rep}
@@ -44,7 +44,7 @@ def role_step(rng, role, rep, fb="mixed"):
         return {"a": "rrtp", "s": 4, "w": 7, "id": 1, "len": 30, "shape": 0, "tw": 20000, "fail": False, "rep": rep}
     if role == "c1":
         k = fb if fb != "mixed" else rng.choice(["nack", "ccfb", "twccfb"])
-        return {"a": "rrtcp", "s": 1, "kind": k, "nums": [1001, 1003, 30002], "id": 1, "w": 1000, "tw": 0, "fail": False, "rep": rep}
+        return {"a": "rrtcp", "s": 1, "kind": k, "nums": [1001, 1003, 1041, 1044, 30002], "id": 1, "w": 1000, "tw": 0, "fail": False, "rep": rep}
     if role == "c2":
         k = fb if fb != "mixed" else rng.choice(["sr", "rr", "ccfb", "twccfb"])
         return {"a": "rrtcp", "s": 2 if k in ("sr", "rr") else 1, "kind": k, "id": 1, "w": 1002, "tw": 2, "fail": False, "rep": rep}
